@@ -110,6 +110,21 @@ def main():
         hook_sizes = sorted(v for k, v in hc.items() if "wire" not in k)
         if real_sizes != hook_sizes:
             diffs.append("Handler: channels of the real constructor %s, of the hook %s" % (rc, hc))
+        # the packet-filter configuration handed to the receive path, and the receive handler itself
+        rf = struct_literal(real_src, r"let\s+filter_config\s*=\s*FilterConfig\s*\{", "FilterConfig")
+        hf = struct_literal(hook_src, r"let\s+filter_config\s*=\s*FilterConfig\s*\{", "FilterConfig")
+        diffs += compare("FilterConfig", rf, hf, skip=set())
+        sc = struct_literal(real_src, r"let\s+socket_config\s*=\s*socket::SocketConfig\s*\{", "SocketConfig")
+        m = re.search(r"RecvHandler::verif_new\(([^;]*?)\)\s*\.await", hook_src, re.S)
+        args = [re.sub(r"\s+", "", x) for x in m.group(1).split(",") if x.strip()] if m else []
+        want = [sc.get("filter_config"), sc.get("ban_duration"), sc.get("local_node_id"), sc.get("protocol_identity")]
+        if args[:4] != want:
+            diffs.append("RecvHandler::verif_new is called with %s, Handler::spawn configures the socket with %s" % (args[:4], want))
+        recv_src = open(os.path.join(a.repo, "src/socket/recv.rs")).read()
+        rr = struct_literal(recv_src, r"let\s+mut\s+recv_handler\s*=\s*RecvHandler\s*\{", "RecvHandler")
+        i = recv_src.index("async fn verif_new")
+        hr = struct_literal(recv_src[i:], r"RecvHandler\s*\{", "RecvHandler")
+        diffs += compare("RecvHandler", rr, hr, skip={"recv", "second_recv", "handler", "exit"})
     if a.which in ("service", "all"):
         real_src = open(os.path.join(a.repo, "src/service.rs")).read()
         hook_src = open(os.path.join(a.repo, "src/service/verif_hooks.rs")).read()
